@@ -159,6 +159,25 @@ def replay_file(path, times=3, env=None, timeout_ms=None, prop=None, sweep=1):
 def run_rc_unit(res, unit, findings, tier, seed, tmp):
     """rapidcheck fork-per-case harness, W parallel parents"""
     h = unit["harness"]
+    if unit.get("enumerate"):
+        # exhaustive enumeration of the harness' small finite sub-domain first
+        out = os.path.join(tmp, "%s-enum.json" % h)
+        env = dict(os.environ)
+        env["VERIF_PROP"] = res.prop
+        env["VERIF_TMP"] = tmp
+        p = subprocess.run([harness_path(h), "--enum", "--out", out, "--replay-dir", tmp],
+                           stdout=subprocess.PIPE, stderr=subprocess.DEVNULL, text=True, env=env)
+        if os.path.exists(out):
+            d = json.load(open(out))
+            res.merge_stats(d, h + "/exhaustive")
+            res.units.append({"unit": h + "/exhaustive", "kind": "exhaustive enumeration of the small sub-domain",
+                              "exhaustive_small": True, "cases": d.get("evaluations", 0)})
+        m = re.search(r"FALSIFIED harness=\S+ key=(\S+) replay=(\S+) msg=(.*)", p.stdout)
+        if m:
+            confirm_failure(res, findings, m.group(1), m.group(2), m.group(3), unit)
+        elif p.returncode != 0:
+            res.violations.append(("driver-error", "", p.stdout[-300:]))
+            print("ERROR: harness %s enumeration exited %d" % (h, p.returncode), flush=True)
     budget = unit[tier]
     W = min(NCPU, unit.get("workers", NCPU))
     per = max(1, budget // W)
@@ -171,6 +190,7 @@ def run_rc_unit(res, unit, findings, tier, seed, tmp):
         env["VERIF_EXCLUDE"] = ",".join(excl)
         env["VERIF_TIER"] = tier
         env["VERIF_PROP"] = res.prop
+        env["VERIF_TMP"] = tmp
         env.update(unit.get("env", {}))
         out = os.path.join(tmp, "%s-w%d.json" % (h, w))
         cmd = [harness_path(h), "--gen", "--out", out, "--replay-dir", tmp, "--tag", "w%d" % w,
